@@ -869,6 +869,9 @@ class Message:
             except struct_error as ex:
                 raise InvalidSyntax(ex)
             critical = bool(critical >> 7)
+            # the length covers the generic header itself, so anything smaller can never be valid
+            if length < 4:
+                raise InvalidSyntax(f'Payload length {length} is smaller than the generic payload header')
             start = offset + 4
             end = offset + length
             # Parse the payload. If not known and critical, raise exception
